@@ -514,6 +514,16 @@ pub fn redirect(quick: bool) -> Vec<Scenario> {
         // (quick: to the depth at which the cancel is handled in every order; the stuck task at rest
         // needs 15 events and is left to the thorough tier)
         redirect_cancel_other_job().depth(if quick { 10 } else { 0 }),
+        // the same without the cancel, explored to rest in both tiers: the pre-sent task is being
+        // retracted towards the joining worker (it is in no queue) when its old worker reports it
+        // started / it ends there, while exactly one task of another job is ready
+        Scenario::new(
+            "redirect-other-job-ready",
+            vec![w(1), w(1).spare()],
+            vec![vec![sub(arr(&[0, 1], 1))], vec![sub(arr(&[0], 1))]],
+        )
+        .prefill(0, 1)
+        .budgets(0, 1, 1, 2),
         // a second worker joins while tasks are pre-sent to the first: retract + redirect
         Scenario::new("redirect-join", vec![w(1), w(1).spare()], vec![vec![sub(arr(&[0, 1, 2], 1))]])
             .prefill(1, 1)
